@@ -130,11 +130,9 @@ def observe_object(flav, net, opts, tid, rng, mode="iterate", order=None, forced
         recs.append({"ev": "iter", "tid": tid, "n": state["n"] + 1, "exc": type(ex).__name__, "exact": []})
         return recs
 
-    # damping together with local convergence (flavours with a touched set): known finding KF-C14-4;
-    # only the exactness of the messages is recorded for those runs
+    # damping together with local convergence (flavours with a touched set): a moved damped message is
+    # re-marked itself (KF-C14-4, fixed); judged like every other damped run
     lcdamp = damped and bool(opts.get("lc", True)) and flav in ("D1BP", "D2BP", "L1BP", "L2BP")
-    if lcdamp:
-        want = ()
     end = {"ev": "end", "tid": tid, "exc": "", "converged": conv, "iterations": its, "flav": flav,
            "kind": net.kind, "damped": damped, "lcdamp": lcdamp,
            "scalar": any(len(ix) == 0 for ix, _ in net.tensors), "isolated": int(getattr(net, "isolated", 0))}
@@ -428,8 +426,6 @@ def entry_records(seed, n, tid0, sizes):
             call["damping"] = r.choice([0.3, 0.6])
             call["tol"] = 1e-10
             call["max_iterations"] = 3000
-            if "local_convergence" in call:
-                call["local_convergence"] = False      # damping + local convergence: KF-C14-4 (object traces)
         strip = r.random() < 0.3
         if strip:
             call["strip_exponent"] = True
@@ -771,7 +767,7 @@ def run(ctx):
     else:
         selftests = None
     if selftests is None:
-        selftests = [("MC_damped.cfg", "ConvergedExact", "KF-C14-4: damping with local convergence, run() reports convergence with a message part of the way")]
+        selftests = [("MC_damped.cfg", "ConvergedExact", "the code before 64891667 (KF-C14-4, fixed): damping with local convergence, run() reports convergence with a message part of the way")]
     if not quick and not fast:
         selftests += [("MC_bug_marksrc.cfg", None, "a changed message marks its sender instead of its receiver"),
                       ("MC_bug_noretouch.cfg", None, "an empty touched set is not refilled")]
@@ -780,7 +776,7 @@ def run(ctx):
         if not rr.violated or (inv and rr.violated != inv):
             raise MachineryError("model self-test %s: expected a violated invariant %s, got %s" % (cfg, inv or "", rr.violated))
         ctx.extra.setdefault("model_selftests", []).append("%s: TLC finds a counterexample to %s (%s)" % (cfg, rr.violated, what))
-    # the smallest repair of KF-C14-4 (a moved damped message is re-marked itself) satisfies the invariants
+    # the shipped behaviour since 64891667 (a moved damped message is re-marked itself) satisfies the invariants
     if not fast:
         ctx.model_check("MC_C14", "MC_damped_repaired_quick.cfg" if quick else "MC_damped_repaired.cfg", name="damping-repaired",
                         require_actions=("UpdateSequentialA", "UpdateParallel", "LocalConvergenceSkip", "HyperIterate"), timeout=900)
@@ -840,7 +836,8 @@ def run(ctx):
         "data is regenerated when an exact message or the value vanishes (BP's normalisations are singular there); "
         "HD1BP is not driven with signed integer data (its initial messages are normalised by their plain sum)",
         "a message counts as exact when its direction is within 1e-9 of the numpy reference (1e-6 after a damped run)",
-        "with damping > 0 exactness is checked after convergence only (tol 1e-10), values to 1e-6",
+        "with damping > 0 exactness is checked after convergence only (tol 1e-10), values to 1e-6 "
+        "(with and without local_convergence since the repair of KF-C14-4)",
         "entry points called with the default tol=5e-6 are compared to 1e-4; with tol=1e-12 they are snapped to integers",
     ]
     lap("entry points")
